@@ -1051,6 +1051,8 @@ def method(E, obj, name, args, kwargs):
         return str_method(E, obj, name, args, kwargs)
     if isinstance(obj, bytes):
         if name == "join":
+            if hasattr(args[0], "pyvc_join"):
+                return args[0].pyvc_join(E, obj)
             parts = [as_seq(E, p) for p in E.iterate(args[0])]
             if obj != b"":
                 raise Unsupported("bytes.join with separator")
